@@ -612,7 +612,10 @@ PROPS["C08"] = {
              "every statement position k of n (and no failure), and other invalid sources; destination pre-existing "
              "with known random contents, absent, a private /dev/full-like device node, or in a non-existent directory; one "
              "regular destination in three is special: a name that is not valid UTF-8, a 255-byte name, a live or dangling "
-             "symbolic link with a relative or absolute target in a sub-directory, a file with a second hard link; in two "
+             "symbolic link with a relative or absolute target in a sub-directory, a file with a second hard link; plus "
+             "`stale:` (symbolic links .lace-tmp<n> -> the destination for the next 3,000 process ids, the spawned one "
+             "verified: compile must refuse and remove nothing) and `deep:39..42` (n/n/.../n through a link to the working "
+             "directory: around the limit of 40 link traversals compile must refuse and leave the link alone); in two "
              "cases out of five under a file size limit (RLIMIT_FSIZE with SIGXFSZ ignored: a write to a regular file fails "
              "after exactly that many bytes, as on a full disk), plus an exhaustive sweep of the limit over every byte "
              "position 0..8 of a 6-byte object file x 13 destinations; observed: exit status, the bytes read THROUGH THE "
@@ -622,13 +625,14 @@ PROPS["C08"] = {
              "parameter) run on the same file system and driven by the assembler model, and checked directly against the "
              "all-or-nothing predicate."),
     "trusted": ["real file-system semantics beyond: path resolution follows links (relative targets from the link's directory), "
-                "create fails in a missing directory and follows links, /dev/full accepts open but no data, "
+                "create fails in a missing directory and follows links, create_new fails on any existing name, canonicalize "
+                "reports NotFound vs. other errors (ELOOP after 40 links), /dev/full accepts open but no data, "
                 "a size limit makes write_all fail after a short write, rename is atomic and replaces the destination's own "
                 "entry (a link is not followed), a renamed-over file keeps its other names"],
     "assumptions": ["outside the model: permissions, `.`/`..`, mount points, concurrent writers, a crash (SIGKILL, power loss) "
                     "between two file operations; a failing rename is in the model (theorem) but not injected on the "
-                    "implementation; theorems assume no entry named .lace-tmp<pid> exists and a destination that leads "
-                    "somewhere or has a link-free directory part (two counterexamples outside: DESIGN.md §11.3 'C08 paths')"],
+                    "implementation; the theorems cover every destination except a dangling symbolic link reached through symbolic "
+                    "links (DESIGN.md §11.3 'C08 paths')"],
 }
 
 
